@@ -184,6 +184,18 @@ def nameEquiv (pre post : String) : Bool :=
    ("vpandn", "vpandnd"), ("vpor", "vpord"), ("vpxor", "vpxord"), ("vroundpd", "vrndscalepd"), ("vroundps", "vrndscaleps"),
    ("vroundsd", "vrndscalesd"), ("vroundss", "vrndscaless")].contains (pre, post)
 
+/-- instructions whose result does not depend on the operands when all register operands are the same register -/
+def sameRegZero (n : String) : Bool :=
+  ["xor", "sub", "pxor", "xorps", "xorpd", "psubb", "psubw", "psubd", "psubq", "vpxor", "vxorps", "vxorpd", "vpxord", "vpxorq", "vpsubb", "vpsubw",
+   "vpsubd", "vpsubq", "pcmpeqb", "pcmpeqw", "pcmpeqd", "pcmpeqq", "vpcmpeqb", "vpcmpeqw", "vpcmpeqd", "vpcmpeqq", "kxorw", "kxorb", "kxord", "kxorq",
+   "eor"].contains n
+
+def sameRegKeep (n : String) : Bool :=
+  ["or", "and", "por", "pand", "orps", "orpd", "andps", "andpd", "vpor", "vpand", "vorps", "vorpd", "vandps", "vandpd", "vpord", "vporq", "vpandd",
+   "vpandq", "korw", "kandw", "korb", "kandb", "kord", "kandd", "korq", "kandq"].contains n
+
+def immZeroKeep (n : String) : Bool := ["add", "or", "xor", "sub", "rol", "ror", "sar", "shl", "shr"].contains n
+
 def regLoc (post : Bool) (name : String) : Option Nat := if post then physLoc name else virtLoc name
 
 /-- size of the virtual register behind a twin operand (0 = unknown) -/
@@ -218,13 +230,16 @@ def addOpd (c : Ctx) (post : Bool) (t : TI) (own : Opd) (tw : Option Opd) (isTar
     | true, some (.reg _ rtype rsize rflags _ rwmask remask rfixed resig), some sl =>
       -- register-to-memory substitution: the slot is the location, described like the register it replaces
       if index != "-" then { t with bad := some "indexed stack slot" }
-      else if size != 0 && size != rsize then { t with bad := some s!"slot operand of {size} bytes replaces a {rsize}-byte register" }
+      else if size != 0 && (size > rsize || (memW && size != rsize)) then { t with bad := some s!"slot operand of {size} bytes replaces a {rsize}-byte register" }
       else
         let vs := let s := twinVSize c tw; if s == 0 then rsize else s
         let partialW := memW && rsize < vs
         let t := if memR || partialW then { t with reads := t.reads ++ [sl] } else t
         let t := if memW then { t with writes := t.writes ++ [sl] } else t
-        { t with key := t.key ++ [s!"r{rtype}/{rsize}/{rflags &&& 0x19b}/{if memW then rwmask else 0}/{if memW then remask else 0}/{rfixed}/{resig}"] }
+        -- a memory operand cannot zero-extend: if the register form extends into live bytes of the virtual register the
+        -- two forms are different functions (the key differs, so the pair is refused)
+        let lost := memW && (byteMask vs &&& remask &&& (rwmask ^^^ (2 ^ 64 - 1))) != 0
+        { t with key := t.key ++ [s!"r{rtype}/{rsize}/{rflags &&& 0x19b}/{if memW then rwmask else 0}/{if memW then remask else 0}/{rfixed}/{resig}{if lost then "/memform-does-not-zero-extend" else ""}"] }
     | true, none, some sl =>
       -- inserted instruction addressing a stack slot: a location
       let t := if memR then { t with reads := t.reads ++ [sl] } else t
@@ -359,6 +374,30 @@ def translate (c : Ctx) (post : Bool) (nodes : Array Node) (twinOf : Nat → Opt
       let name := match tw with | some t => (if nameEquiv t.name n.name then t.name else n.name) | none => n.name
       let isBranch := n.cf == 1 || n.cf == 2
       let t := addOpds c post {} n.ops twOps isBranch
+      -- same-register / identity idioms, judged by the validator's own width-aware rules (NOT taken from the allocator):
+      --   xor r,r / sub r,r / pxor x,x : the written bytes do not depend on the register (it is still read when the
+      --                                   write does not cover the whole virtual register);
+      --   or r,r / and r,r, op r,0      : the register keeps its value unless the write zero-extends into live bytes;
+      --   or r,-1                       : write-only when the write covers the whole virtual register.
+      let sameRegs : Bool := match n.ops with
+        | [.reg an art asz .., .reg bn brt bsz ..] => an == bn && art == brt && asz == bsz
+        | [.reg an art asz .., .reg bn brt bsz .., .reg cn crt csz ..] => an == bn && art == brt && asz == bsz && bn == cn && brt == crt && bsz == csz
+        | _ => false
+      let op0 : Option (Nat × Nat × Nat × Nat) := match n.ops.head? with      -- (loc, vs, wmask, emask) of a written register operand 0
+        | some (.reg an _ asz afl _ awm aem _ _) =>
+          if afl.testBit 1 then (regLoc post an).map fun l => (l, (let s := twinVSize c twOps.head?; if s == 0 then asz else s), awm, aem) else none
+        | _ => none
+      let t := match op0 with
+        | none => t
+        | some (l0, vs, wm, em) =>
+          let covers := (byteMask vs &&& ((wm ||| em) ^^^ (2 ^ 64 - 1))) == 0
+          let extendsLive := (byteMask vs &&& em) != 0
+          let imm1 : Option String := match n.ops with | [_, .imm v] => some v | _ => none
+          if sameRegs && sameRegZero n.name then { t with reads := if covers then [] else [l0], key := t.key ++ ["zero"] }
+          else if sameRegs && sameRegKeep n.name && !extendsLive then { t with writes := t.writes.filter (· != l0), key := t.key ++ ["keep"] }
+          else if n.name == "or" && imm1 == some "-1" && covers then { t with reads := t.reads.filter (· != l0), key := t.key ++ ["ones"] }
+          else if imm1 == some "0" && immZeroKeep n.name && !extendsLive then { t with writes := t.writes.filter (· != l0), key := t.key ++ ["keep"] }
+          else t
       let t := if n.extra == "-" then t else
         match regLoc post n.extra with
         | some l => { t with reads := t.reads ++ [l] }
@@ -415,7 +454,15 @@ def translate (c : Ctx) (post : Bool) (nodes : Array Node) (twinOf : Nat → Opt
               else none
             | _, _ => none
           | _ => none
-        if regular then
+        let selfMove : Option Nat :=
+          match n.ops with
+          | [.reg an art asz afl _ _ aem _ _, .reg bn brt bsz ..] =>
+            if isMoveName c.x86 n.name && an == bn && art == brt && asz == bsz && afl &&& 3 == 2 && n.extra == "-" && n.rfl == 0 && n.wfl == 0
+               && (aem &&& byteMask (let s := twinVSize c twOps.head?; if s == 0 then asz else s)) == 0 then regLoc post an else none
+          | _ => none
+        if regular && selfMove.isSome then
+          inst := .move (selfMove.getD 0) (selfMove.getD 0) 0
+        else if regular then
           -- a user instruction is a `move` iff the instruction of the VIRTUAL program is a full-width register copy
           let preNode := match tw with | some t => t | none => n
           let preFull : Bool :=
@@ -541,7 +588,8 @@ def process (line : String) : String :=
       let nv := vinfo.foldl (fun m v => max m (v.getD 0 0 + 1)) 0
       let vsize := vinfo.foldl (fun (a : Array Nat) v => a.set! (v.getD 0 0) (v.getD 2 0)) (Array.replicate nv 0)
       let vstack := vinfo.foldl (fun (a : Array Bool) v => a.set! (v.getD 0 0) (v.getD 4 0 == 1)) (Array.replicate nv false)
-      let c : Ctx := { x86, spId := if x86 then 4 else 31, fpId := if x86 then 5 else 29, vsize, vstack }
+      let hasFp := ts.contains "fp=1"
+      let c : Ctx := { x86, spId := if x86 then 4 else 31, fpId := if hasFp then (if x86 then 5 else 29) else 9999, vsize, vstack }
       -- return locations: all FuncRet nodes must agree
       let retLists := preN.toList.filterMap fun n => if n.kind == 'R' then some n.locs else none
       let retLocS := retLists.headD []
@@ -581,9 +629,10 @@ def process (line : String) : String :=
         match bad with
         | some (q, p) => throw s!"reject pair {p}/{q} tag {post.tags.getD q 0}: {repr (post.insts.getD q default)} VS {repr (pre.insts.getD p default)}"
         | none => throw "reject entry or argument relation"
+    let oneLine (s : String) : String := String.ofList (s.toList.map fun ch => if ch == '\n' then ' ' else ch)
     match r with
     | .ok s => s
-    | .error m => if m.startsWith "unsupported" || m.startsWith "reject" then m else "reject " ++ m
+    | .error m => oneLine (if m.startsWith "unsupported" || m.startsWith "reject" then m else "reject " ++ m)
   | "raerr" :: r => "raerr " ++ String.intercalate " " r
   | _ => "unsupported malformed dump"
 
